@@ -129,7 +129,12 @@ Definition form_io_ok (f : form) : bool :=
                           && act_read (fo_action a) && act_read (fo_action b)
          | _ => false end)
   (* immediates and relative targets are never written; every operand has some action or is an immediate/address-only *)
-  && forallb (fun o => negb (existsb (String.eqb (fo_type o)) ["1";"3";"IMM2U";"IMM8";"IMM16";"IMM32";"IMM64";"REL8";"REL32"]%string) || negb (act_write (fo_action o))) (f_operands f).
+  && forallb (fun o => negb (existsb (String.eqb (fo_type o)) ["1";"3";"IMM2U";"IMM8";"IMM16";"IMM32";"IMM64";"REL8";"REL32"]%string) || negb (act_write (fo_action o))) (f_operands f)
+  (* every register and memory operand, explicit or implicit, is read or written (or both): an operand the
+     instruction neither reads nor writes does not exist in the instruction set avo covers, and a memory
+     operand without an action would hide its address registers from liveness *)
+  && forallb (fun o => (negb (fo_implicit o) && existsb (String.eqb (fo_type o)) ["1";"3";"IMM2U";"IMM8";"IMM16";"IMM32";"IMM64";"REL8";"REL32"]%string)
+                       || negb (fo_action o =? 0)) (f_operands f).
 
 (* ---- cases: (opcode forms index, suffixes, operands, observed: Some instruction | None = error) *)
 Definition instr_eqb_io (a b : instr) : bool :=
